@@ -51,14 +51,10 @@ def getItems (j : Json) : Except String Items := do
   | .dict kvs => pure kvs
   | _ => throw "md must be a dict"
 
-/-- sum of the magnitudes of all numbers in a value, and its nesting depth -/
-partial def sumAbs : PyVal → Nat
-  | .int i => i.natAbs
-  | .float (.fin t _ _) => t.natAbs
-  | .list l | .tuple l => (l.map sumAbs).sum
-  | .dict kvs => (kvs.map fun (k, v) => sumAbs k + sumAbs v).sum
-  | _ => 0
+/-- sum of the magnitudes of all numbers in a value (kept for Driver.C17) -/
+def sumAbs (v : PyVal) : Nat := Validate.sumAbs v
 
+/-- nesting depth of a value -/
 partial def depth : PyVal → Nat
   | .list l | .tuple l => 1 + (l.map depth).foldl max 0
   | .dict kvs => 1 + (kvs.map fun (k, v) => max (depth k) (depth v)).foldl max 0
@@ -104,11 +100,12 @@ def eval (j : Json) : Except String Json := do
   return jobj [("validate", resUnit v), ("dump", resBytes d), ("dumpNoValidate", resBytes dn),
                ("info", resBytes ib), ("magnet", resUnit (mg.map fun _ => ())), ("ready", resBool rd),
                ("modelSound", modelSound), ("implSound", implSound),
-               ("hyp", jbool (sumAbs (.dict md) < 2 ^ 53 && depth (.dict md) ≤ 100)),
+               ("hyp", jbool (depth (.dict md) ≤ 100)),
+               ("wf", jbool (Codec.wf (.dict md))),
+               ("numbersSmall", jbool (numbersSmall md)),
                ("hypMagnet", jbool (magnetTailOk urlOk md)),
                ("filesIsDict", jbool filesIsDict),
-               ("hypThm", jbool (filesNotMapping md && (!fs.hasPath || pathsJoinable md))),
-               ("sumAbs53", jbool (sumAbs (.dict md) < 2 ^ 53))]
+               ("hypThm", jbool (outsideD07fD07j fs md))]
 
 /-- op `c07.sound`: {bytes, urls} ↦ the executable specification on arbitrary bytes -/
 def sound (j : Json) : Except String Json := do
